@@ -1,6 +1,7 @@
 """C10 - namespace reading is complete, ordered and deterministic."""
 from __future__ import annotations
 
+import copy
 import json
 import os
 import subprocess
@@ -285,6 +286,61 @@ def check_files_shared(case: typing.Any, ctx: Ctx) -> Info:
     return Info(len(target_roots) >= 2 or bool(want_trans), classes, sample={"targets": [wsp.rel_path(ws, ws["defs"][i]) for i in targets], "roots": repr(roots_arg), "lookups": repr(lookups_arg)})
 
 
+def check_mutations(case: typing.Any, ctx: Ctx) -> Info:
+    """A namespace tree that changes between reads in one process - definitions appear in directories that exist already (also in
+    ones that so far held only sub-namespaces, or nothing), whole sub-namespaces appear, definitions disappear: every read returns
+    exactly the definition files that are there *now*."""
+    import pydsdl
+
+    ws = copy.deepcopy(case["ws"])
+    d = ctx.scratch()
+    try:
+        wsp.write(ws, d)
+        for i in range(len(ws["roots"])):
+            for sub in (["hollow"], ["hollow", "inner"], ["sub", "empty"]):
+                os.makedirs(os.path.join(d, wsp.root_dir(ws, i), *sub), exist_ok=True)
+        live = list(range(len(ws["defs"])))
+        roots = [os.path.join(d, wsp.root_dir(ws, i)) for i in range(len(ws["roots"]))]
+        log: typing.List[str] = []
+        reads = 0
+        for step in case["steps"]:
+            op = step["op"]
+            if op == "add":
+                nd = {"root": step["root"] % len(ws["roots"]), "ns": [["hollow"], ["hollow", "inner"], ["sub", "empty"], ["sub"], [], ["fresh%d" % len(log)], ["hollow", "new%d" % len(log), "deep"]][step["where"] % 7],
+                      "short": "Added%d" % len(ws["defs"]), "version": [1, step["where"] % 3], "port": None, "service": False, "sealed": True, "size": 1, "deprecated": False, "legacy": bool(step["where"] % 5 == 4), "refs": []}
+                ws["defs"].append(nd)
+                live.append(len(ws["defs"]) - 1)
+                path = os.path.join(d, wsp.rel_path(ws, nd))
+                os.makedirs(os.path.dirname(path), exist_ok=True)
+                with open(path, "w") as f:
+                    f.write(wsp.text_of(ws, len(ws["defs"]) - 1))
+                log.append("add " + wsp.rel_path(ws, nd))
+            elif op == "remove":
+                # only definitions nobody refers to (the rest of the workspace stays valid)
+                referenced = {r["to"] for i in live for r in ws["defs"][i]["refs"]}
+                cands = [i for i in live if i not in referenced]
+                if len(cands) > 1:
+                    i = cands[step["where"] % len(cands)]
+                    os.remove(os.path.join(d, wsp.rel_path(ws, ws["defs"][i])))
+                    live.remove(i)
+                    log.append("remove " + wsp.rel_path(ws, ws["defs"][i]))
+            else:
+                ri = step["root"] % len(roots)
+                res, _ = guarded(pydsdl.read_namespace, roots[ri], roots, what="read_namespace:after-mutations")
+                want = nu.expected_order(ws, [i for i in live if ws["defs"][i]["root"] == ri])
+                want_ids = [(wsp.full_name(ws, ws["defs"][i]), ws["defs"][i]["version"][0], ws["defs"][i]["version"][1]) for i in want]
+                got_ids = [wsp.ident(t) for t in res]
+                if got_ids != want_ids:
+                    missing = [x for x in want_ids if x not in got_ids]
+                    raise Violation("namespace-missing:after-mutations" if missing else "namespace-extra:after-mutations", want_ids, got_ids, "read of %s after %s" % (wsp.root_dir(ws, ri), log))
+                reads += 1
+                log.append("read " + wsp.root_dir(ws, ri))
+    finally:
+        ctx.cleanup(d)
+    mutated_between = any(a.startswith("read") and any(not b.startswith("read") for b in log[i + 1 :]) and any(c.startswith("read") for c in log[i + 1 :]) for i, a in enumerate(log))
+    return Info(bool(mutated_between), ["mutations", "reads:%d" % reads, "steps:%d" % len(log)], sample={"log": log})
+
+
 def check_relink(case: typing.Any, ctx: Ctx) -> Info:
     """Directory arguments that lead through a symbolic link, read several times in one process while the link is re-pointed
     between the calls: each call sees what the path designates *then* - nothing about an earlier resolution may be remembered."""
@@ -496,9 +552,16 @@ def parts(ctx: Ctx) -> typing.List[Part]:
             "steps": st.lists(st.fixed_dictionaries({"tree": st.integers(0, 2), "root": st.integers(0, 2), "api": st.integers(0, 1), "targets": st.lists(st.integers(0, 9), min_size=1, max_size=3)}), min_size=2, max_size=4),
         }
     )
+    mutation_cases = st.fixed_dictionaries(
+        {
+            "ws": wsp.definitions(max_defs=5, roots=2, shorts=["A", "B", "Msg"], subs=["sub", "hollow"]),
+            "steps": st.lists(st.fixed_dictionaries({"op": st.sampled_from(["read", "read", "add", "add", "remove"]), "root": st.integers(0, 2), "where": st.integers(0, 20)}), min_size=3, max_size=7),
+        }
+    )
     return [
         Part("namespace", ns_cases, check_namespace, weight=4, cost=1.0),
         Part("relink", relink_cases, check_relink, weight=1, cost=2.0),
+        Part("mutations", mutation_cases, check_mutations, weight=1, cost=2.0),
         Part("files", file_cases, check_files, weight=3, cost=1.5),
         Part("files-same-name", shared_cases, check_files_shared, weight=2, cost=1.0),
         Part("dirsets", dir_cases, check_dirsets, weight=2, cost=0.7),
